@@ -5,7 +5,7 @@
  acquisition give an error without running the handler, other keys are unaffected.
 
  One action per gate of the middleware, in code order:
-   Start . FastCheck(get) . [cached: ReplyCached] LockAcq . ReCheck(get) . [cached: Unlock . ReplyCached]
+   Start . [no key or safe method: Bypass -- the handler runs, nothing else happens] FastCheck(get) . [cached: ReplyCached] LockAcq . ReCheck(get) . [cached: Unlock . ReplyCached]
          . Execute(ok | error) . [ok: Record(set)] . Unlock . done
  The Locker is specified as what it must be: a mutex per key (MemoryLock.tla checks that the
  bundled implementation is one).
@@ -17,7 +17,7 @@ CONSTANTS Procs, Keys, Faults,    \* Faults: subset of {"", "get1", "get2", "loc
 VARIABLES store, holder, pc, loc, out, execs
 vars == <<store, holder, pc, loc, out, execs>>
 
-NoLoc == [key |-> "", herr |-> FALSE, fault |-> ""]
+NoLoc == [key |-> "", herr |-> FALSE, fault |-> "", byp |-> FALSE]
 Init == /\ store = [k \in Keys |-> 0]        \* 0 = nothing recorded, else the proc whose execution was recorded
         /\ holder = [k \in Keys |-> 0]
         /\ pc = [p \in Procs |-> "idle"] /\ loc = [p \in Procs |-> NoLoc]
@@ -25,9 +25,15 @@ Init == /\ store = [k \in Keys |-> 0]        \* 0 = nothing recorded, else the p
         /\ execs = [k \in Keys |-> {}]       \* ghost: procs whose handler completed successfully for k
 
 U(p, new) == pc' = [pc EXCEPT ![p] = new]
-Start(p, k, herr, f) == /\ pc[p] = "idle" /\ U(p, "fast")
-                        /\ loc' = [loc EXCEPT ![p] = [key |-> k, herr |-> herr, fault |-> f]]
-                        /\ UNCHANGED <<store, holder, out, execs>>
+\* byp: the request carries no key or uses a safe method -- the middleware must stand aside
+Start(p, k, herr, f, byp) == /\ pc[p] = "idle" /\ U(p, IF byp THEN "bypass" ELSE "fast")
+                             /\ loc' = [loc EXCEPT ![p] = [key |-> k, herr |-> herr, fault |-> f, byp |-> byp]]
+                             /\ UNCHANGED <<store, holder, out, execs>>
+\* the handler runs for it whatever is recorded or locked; it neither reads nor writes the store, takes no lock, and does not
+\* count as the key's execution
+Bypass(p) == /\ pc[p] = "bypass" /\ U(p, "done")
+             /\ out' = [out EXCEPT ![p] = IF loc[p].herr THEN [kind |-> "error", exec |-> 0] ELSE [kind |-> "executed", exec |-> p]]
+             /\ UNCHANGED <<store, holder, loc, execs>>
 
 Err(p) == out' = [out EXCEPT ![p] = [kind |-> "error", exec |-> 0]]
 Cached(p) == out' = [out EXCEPT ![p] = [kind |-> "cached", exec |-> store[loc[p].key]]]
@@ -58,8 +64,8 @@ Unlock(p) == /\ pc[p] \in {"unlockC", "unlockE", "unlockX"} /\ (~Locking \/ hold
              /\ holder' = [holder EXCEPT ![loc[p].key] = 0] /\ U(p, "done")
              /\ UNCHANGED <<store, loc, out, execs>>
 
-Step(p) == FastCheck(p) \/ FastFails(p) \/ LockAcq(p) \/ LockFails(p) \/ ReCheck(p) \/ ReFails(p) \/ Execute(p) \/ Record(p) \/ Unlock(p)
-Next == \E p \in Procs : Step(p) \/ \E k \in Keys, herr \in BOOLEAN, f \in Faults : Start(p, k, herr, f)
+Step(p) == Bypass(p) \/ FastCheck(p) \/ FastFails(p) \/ LockAcq(p) \/ LockFails(p) \/ ReCheck(p) \/ ReFails(p) \/ Execute(p) \/ Record(p) \/ Unlock(p)
+Next == \E p \in Procs : Step(p) \/ \E k \in Keys, herr \in BOOLEAN, f \in Faults, byp \in BOOLEAN : (byp => f = "") /\ Start(p, k, herr, f, byp)
 Spec == Init /\ [][Next]_vars
 
 ---------------------------------------------------------------------------
@@ -70,5 +76,7 @@ RecordedIsExecuted == \A k \in Keys : store[k] # 0 => store[k] \in execs[k]
 \* a request whose lookup or lock acquisition fails gets an error and its handler never runs
 FaultMeansNoRun == \A p \in Procs : loc[p].fault # "" => p \notin UNION {execs[k] : k \in Keys}
 MutexPerKey == \A k \in Keys : holder[k] # 0 => (loc[holder[k]].key = k /\ pc[holder[k]] \in {"recheck", "handler", "record", "unlockC", "unlockE", "unlockX"})
+\* requests without a key or with a safe method are unaffected: they always get their own execution (or its error)
+BypassUnaffected == \A p \in Procs : (pc[p] = "done" /\ loc[p].byp) => out[p] = IF loc[p].herr THEN [kind |-> "error", exec |-> 0] ELSE [kind |-> "executed", exec |-> p]
 NoStuck == (\E p \in Procs : pc[p] \notin {"idle", "done"}) => ENABLED (\E p \in Procs : Step(p))
 =============================================================================
